@@ -1,5 +1,6 @@
 import Orx.KSRun
 import Orx.IW.Outs
+import Orx.GenThms
 /-! # C03 Chunk contract: non-empty, bounded, consecutive, exact length -/
 namespace Orx.Props.C03
 open Orx Orx.KS
@@ -64,5 +65,25 @@ theorem iter_short_chunk_at_end (s : IW.Script) (ps : Nat → List IW.Req)
 -- the hypotheses are satisfiable by a non-trivial configuration
 example : (1 : Nat) ≤ 3 ∧ (5 : Nat) < W := by decide
 example : pullRange 5 3 3 = (3, 5) := by decide
+
+
+/-! ## The source itself (translated on every run) -/
+open Orx.RS Orx.Gen Orx.GenThms Orx.KS in
+/-- **One-shot and buffered chunk pulls of the four known-size kinds, as they are in the source**: the chunk returned
+for a counter value `c` is the model's `[b, e) = pullRange len c n` — `None` iff empty — with begin index `b`; and a
+buffered chunk (chunk size ≥ 1, asserted by `BufferedIter::new`) is never empty. -/
+theorem source_chunks_are_the_models (len n c : Nat) (evs dr) (hl : len < W) :
+    Slice.fetch_n (slice len) n (st c evs dr) = .ok (chunkOf (pullRange len c n)) (st (wrapAdd c n) (evs ++ [faa c n]) dr) ∧
+    Vec.fetch_n (vec len) n (st c evs dr) = .ok (chunkOf (pullRange len c n)) (st (wrapAdd c n) (evs ++ [faa c n]) dr) ∧
+    Arr.fetch_n len (arr len) n (st c evs dr) = .ok (chunkOf (pullRange len c n)) (st (wrapAdd c n) (evs ++ [faa c n]) dr) ∧
+    BufferedIterSlice.next ⟨⟨n⟩, slice len⟩ (st c evs dr) = .ok (bufChunk len c n) (st (wrapAdd c n) (evs ++ [faa c n]) dr) ∧
+    BufferedIterVec.next ⟨⟨n⟩, vec len⟩ (st c evs dr) = .ok (bufChunk len c n) (st (wrapAdd c n) (evs ++ [faa c n]) dr) ∧
+    BufferedIterArr.next len ⟨⟨n⟩, arr len⟩ (st c evs dr) = .ok (bufChunk len c n) (st (wrapAdd c n) (evs ++ [faa c n]) dr) :=
+  ⟨slice_fetch_n len n c evs dr, vec_fetch_n len n c evs dr hl, arr_fetch_n len n c evs dr hl,
+   slice_buffered_next len n c evs dr, vec_buffered_next len n c evs dr hl, arr_buffered_next len n c evs dr hl⟩
+
+open Orx.GenThms Orx.KS in
+theorem source_buffered_chunk_nonempty (len c n : Nat) (h : c < len) (hn : 0 < n) (hl : len < W) :
+    c < (pullRange len c n).2 := buffered_chunk_nonempty len c n h hn hl
 
 end Orx.Props.C03
